@@ -235,6 +235,24 @@ def run_case(spec):
             cur = []
         else:
             cur.append(a)
+    # every recorded row is (previous time + the step that was finally ACCEPTED for it, previous state + its increment): a state advanced by a
+    # shortened retry must not be stamped with the time the first, rejected attempt aimed at
+    if not spec["rich"]:
+        groups, cur = [], []
+        for a in slog.attempts:
+            if "boundary" in a:
+                groups.append(cur)
+                cur = []
+            else:
+                cur.append(a)
+        for k, g in enumerate(groups):
+            if not g or k + 1 >= len(t):
+                continue
+            rec.bump("recorded_steps_matched_with_accepted_attempt")
+            dt_rec = float(np.longdouble(t[k + 1]) - np.longdouble(t[k]))
+            if abs(dt_rec - g[-1]["h"]) > 8 * 2.3e-16 * max(1.0, abs(float(t[k])), abs(float(t[k + 1]))) and g[-1]["t"] == float(t[k]):
+                rec.violate("time_state_pairing", "recorded_time_increment_differs_from_the_accepted_step", feats, row=k + 1, recorded=dt_rec, accepted=g[-1]["h"], attempts=[a_["h"] for a_ in g][:6])
+                break
     raised = seg["raised"]
     cause = getattr(seg["exc"], "__cause__", None) if raised else None
     if raised:
